@@ -4,6 +4,9 @@ from kani import Harness
 PROPERTY = {
     "title": "tablet map stays a set of disjoint ranges with latest-wins lookup",
     "level": "proof",
+    "level_text": 'Deductive proof, all lists and tokens: Verus proves on the extracted real tablet_for_token and add_tablet that the list stays sorted and pairwise disjoint, lookup returns a covering tablet of the list or None when none covers the token, and add_tablet removes exactly the overlapping tablets, keeps all others, and inserts the new one (latest wins / stale => nothing).',
+    "level_note": 'Trusted: Verus/Z3; std contracts of partition_point (documented), Option::filter, Vec::drain/insert/get; derive(PartialOrd) on Token compares value. Not covered: perform_maintenance, per-DC replica restriction.',
+    "technique": 'contract-based deductive verification: Verus requires/ensures + representation invariant wf() on extracted functions',
     "verus": [
         Unit("c15_tablets", "C15", "c15_tablets.vrs", desc={
             "tablet_for_token": "wf(list) => Some(t): t in list and covers token; None: no tablet of the list covers token",
